@@ -873,7 +873,66 @@ _R_RECOVER = ("(z, (r,s)) from classes valid / malleated / r+n / r in [n,p) / s 
               "uniform / other z, with y_parity None, 0, 1: every returned key must satisfy the reference verification, the signer must be "
               "present when the nonce abscissa < n; non-trivial = some key returned or (r,s) out of range")
 
+# ------------------------------------------------------------------------------------------------ one generator, long use
+
+
+def o_sign_history(case):
+    """one generator object serving a long-running process: tens of thousands of multiplications, and around every power of
+    two of that count a burst of sign / verify calls whose results are the RFC 6979 signature and True, as on a fresh object.
+    The entropy source answers differently every time it is asked."""
+    import hashlib
+    spec, cfg, upto, seed = case["curve"], case["cfg"], case["upto"], case["seed"]
+    c = REF[spec]
+    n = c.n
+    asked = [0]
+
+    def entropy_f(nbytes):
+        asked[0] += 1
+        return (hashlib.sha256(b"verif c01 history %d %d" % (seed, asked[0])).digest() * (nbytes // 32 + 1))[:nbytes]
+    g = ecgen.build_generator(spec, cfg, entropy_f=entropy_f)
+    d = (seed * 0x9E3779B97F4A7C15 + 12345) % (n - 1) + 1
+    Q = c.mul_fast(d, c.G)
+    made, bursts = 0, 0
+    boundary = 256
+    while boundary <= upto:
+        while made < boundary - 8:
+            g * (made + 2)
+            made += 1
+        for j in range(16):
+            z = int.from_bytes(hashlib.sha256(b"msg %d %d %d" % (seed, boundary, j)).digest(), "big") or 1
+            r0, s0, _k, _R = refecdsa.sign(c, d, z)
+            if r0 == 0 or s0 == 0:
+                continue
+            got = g.sign(d, z)
+            made += 1
+            if tuple(got) != (r0, s0):
+                _bad("sign:history:call-count-dependent", "%s Generator/%s: after about %d multiplications on this object sign(d, z) = %r, the "
+                     "RFC 6979 signature is (%d, %d)" % (c.name, cfg, made, tuple(got), r0, s0))
+            ok = g.verify(Q, z, (r0, s0))
+            made += 1
+            if ok is not True:
+                _bad("verify:history:call-count-dependent", "%s Generator/%s: after about %d multiplications on this object verify refuses "
+                     "the valid signature (%d, %d) of z=%d" % (c.name, cfg, made, r0, s0, z))
+        bursts += 1
+        boundary *= 2
+    return [curve_label(spec), "cfg=" + cfg, "multiplications>16384" if made > 16384 else "multiplications<=16384"]
+
+
+def cases_sign_history(tier):
+    if ecgen.OPENSSL_PRESENT:
+        yield {"curve": "k1", "cfg": "openssl", "upto": 2 ** 15 if tier == "quick" else 2 ** 17, "seed": 1}
+        if tier != "quick":
+            yield {"curve": "r1", "cfg": "openssl", "upto": 2 ** 16, "seed": 2}
+    yield {"curve": "k1", "cfg": "pure", "upto": 2 ** 9 if tier == "quick" else 2 ** 11, "seed": 3}
+
+
 SUBCHECKS = [
+    SubCheck("sign_verify_long_lived_generator", o_sign_history, cases=cases_sign_history, exhaustive=False,
+             nontrivial=lambda c, l: "multiplications>16384" in l,
+             rule="one freshly constructed generator (OpenSSL class; a short run on the pure class) whose entropy source never repeats, used "
+                  "for 2^15 (thorough 2^17) multiplications; around every power of two of that count 16 sign / verify pairs: sign equals the "
+                  "RFC 6979 signature of the reference, verify accepts it - whatever the object has done before; non-trivial = more than "
+                  "16384 multiplications on the object"),
     SubCheck("sign_adversarial_blinding", o_sign_blinding, strategy=s_sign_blinding, budget=(320, 12000),
              nontrivial=lambda c, l: "blinding-as-chosen" in l,
              rule="secp256k1 / secp256r1 generator instances (OpenSSL class and pure) constructed with a blinding factor that cancels this case's RFC 6979 nonce (k + b = n), or its u1 = z/s (for either sign of s), in the blinded fixed-base multiplication: sign must still equal the RFC 6979 signature, verify must accept it and refuse z+1, G*d must be the public key; non-trivial = the instance really has the chosen blinding factor"),
